@@ -246,7 +246,15 @@ func (eng *RedisEmu) startServer() {
 				break
 			}
 			eng.l.Infof("client connected: %s", connection.RemoteAddr().String())
-			newClientCxn(eng.l, connection, dispatcher)
+			cc := newClientCxn(eng.l, connection, dispatcher)
+
+			// accepted while the emulator was being terminated: the termination did not see it yet
+			eng.mu.Lock()
+			terminated := eng.disp != dispatcher
+			eng.mu.Unlock()
+			if terminated {
+				cc.RequestClose()
+			}
 		}
 	}()
 }
